@@ -223,6 +223,36 @@ func perturbations(base DagCase) []DagCase {
 				shift(&c, i, 0)
 				out = append(out, c)
 
+				// a merge commit with more than two parents is still a merge commit: same rules
+				if i >= 3 {
+					third := -1
+					for k := 0; k < i; k++ {
+						if k != base.Commits[i].Parents[0] && k != base.Commits[i].Parents[1] {
+							third = k
+						}
+					}
+					if third >= 0 {
+						c = clone()
+						c.Perturb, c.At, c.Intent = "three-parent-merge-with-ops", i, "refuse"
+						c.Commits[i].Parents = append(c.Commits[i].Parents, third)
+						c.Commits[i].NOps = 1
+						out = append(out, c)
+
+						c = clone()
+						c.Perturb, c.At, c.Intent = "three-parent-merge", i, "model"
+						c.Commits[i].Parents = append(c.Commits[i].Parents, third)
+						out = append(out, c)
+
+						if maxParent(base, i) > 1 {
+							c = clone()
+							c.Perturb, c.At, c.Intent = "three-parent-merge-below-a-parent", i, "refuse"
+							c.Commits[i].Parents = append(c.Commits[i].Parents, third)
+							c.Commits[i].Edit = maxParent(c, i) - 1
+							out = append(out, c)
+						}
+					}
+				}
+
 				// a merge commit may jump arbitrarily far: past 2^63 the edit times only compare
 				// correctly as unsigned 64-bit values
 				c = clone()
